@@ -2375,8 +2375,13 @@ class ProvDocument(ProvBundle):
 
         :return: :py:class:`ProvDocument`
         """
-        document = ProvDocument(self._unified_records())
-        document._namespaces = self._namespaces
+        # the new document gets its own namespace manager (with the same
+        # declarations) so that it can be modified independently of this one
+        document = ProvDocument(namespaces=self.get_registered_namespaces())
+        if self.default_ns_uri is not None:
+            document.set_default_namespace(self.default_ns_uri)
+        for record in self._unified_records():
+            document.add_record(record)
         for bundle in self.bundles:
             unified_bundle = bundle.unified()
             document.add_bundle(unified_bundle)
